@@ -510,12 +510,20 @@ func c08Extract(cfg Config, rep *Report, m *Model, rng *rand.Rand, bin string, m
 	for _, inplace := range []bool{false, true} {
 		for _, n := range []int{1, 4} {
 			for _, k := range ks {
-				for _, prior := range []string{"absent", "other"} {
+				for _, prior := range []string{"absent", "other", "link"} {
+					if prior == "link" && (inplace || k%2 == 1) {
+						continue
+					}
 					dst := filepath.Join(work, fmt.Sprintf("out-%v-%d-%d-%s", inplace, n, k, prior))
 					var before []byte
 					if prior == "other" {
 						before = randBytes(rng, 5000+rng.Intn(60000))
 						os.WriteFile(dst, before, 0644)
+					}
+					if prior == "link" { // the destination path is a symbolic link to a file with other content
+						before = randBytes(rng, 5000+rng.Intn(60000))
+						os.WriteFile(dst+".target", before, 0644)
+						os.Symlink(dst+".target", dst)
 					}
 					srv.mu.Lock()
 					srv.hold, srv.requests, srv.served = k, 0, nil
@@ -550,6 +558,13 @@ func c08Extract(cfg Config, rep *Report, m *Model, rng *rand.Rand, bin string, m
 						}
 						if prior == "other" && !bytes.Equal(after, before) {
 							monitor("extract without --in-place was killed and the destination no longer holds its previous content", line)
+						}
+						if prior == "link" {
+							fi, lerr := os.Lstat(dst)
+							tgt, _ := os.ReadFile(dst + ".target")
+							if lerr != nil || fi.Mode()&os.ModeSymlink == 0 || !bytes.Equal(after, before) || !bytes.Equal(tgt, before) {
+								monitor("extract without --in-place onto a symbolic link was killed and the destination path (or the file the link points to) no longer holds its previous state", line)
+							}
 						}
 						continue
 					}
